@@ -45,8 +45,9 @@ type childJob struct {
 }
 
 type childViol struct {
-	Key  string `json:"key"`
-	What string `json:"what"`
+	Key    string `json:"key"`
+	What   string `json:"what"`
+	Detail string `json:"detail,omitempty"` // stack etc.; kept in the replay file only
 }
 
 type childResult struct {
@@ -69,6 +70,13 @@ type childResult struct {
 	ProbeHit int         `json:"probe_hit,omitempty"`
 	Viols    []childViol `json:"viols,omitempty"`
 	Done     bool        `json:"done,omitempty"` // last line of a child that finished its job
+}
+
+func (r *childResult) describe() string {
+	if r.Mode == "trunc" {
+		return fmt.Sprintf("the first %d bytes of dump %q (via dump_file: %v)", r.P, r.Dump, r.ViaFile)
+	}
+	return fmt.Sprintf("damaged input #%d (%s: %s, %d bytes)", r.Idx, r.Kind, r.Desc, r.Len)
 }
 
 const (
@@ -260,7 +268,7 @@ func childMain(jobPath string) {
 	case "trunc":
 		poolsan.Install(func(r poolsan.Report) {
 			cur, _ := cs.current.Load().(string)
-			cs.emit(&childResult{Mode: "trunc", Dump: job.DumpName, P: -1, Viols: []childViol{{Key: "poolsan-" + r.Kind, What: "buffer-pool sanitizer during load of a truncated dump: " + r.Kind + ": " + r.Info + " case=" + cur + "\n" + r.Stack}}})
+			cs.emit(&childResult{Mode: "trunc", Dump: job.DumpName, P: -1, Viols: []childViol{{Key: "poolsan-" + r.Kind, What: "buffer-pool sanitizer during load of a truncated dump: " + r.Kind + ": " + r.Info + " case=" + cur, Detail: r.Stack}}})
 		})
 		cs.runTrunc()
 	case "damage":
@@ -286,7 +294,12 @@ func guarded(r *childResult, f func()) {
 	defer func() {
 		if p := recover(); p != nil {
 			st := string(debug.Stack())
-			r.Viols = append(r.Viols, childViol{Key: crashKey(st), What: fmt.Sprintf("panic: %v\n%s", p, st)})
+			top := mosFrameRe.FindStringSubmatch(st)
+			frame := "no mosdns frame"
+			if top != nil {
+				frame = top[1]
+			}
+			r.Viols = append(r.Viols, childViol{Key: crashKey(st), What: fmt.Sprintf("panic: %v (first mosdns frame: %s) while handling %s", p, frame, r.describe()), Detail: st})
 		}
 	}()
 	f()
@@ -344,7 +357,7 @@ func (cs *childState) truncCase(r *childResult, in []byte, full map[string]bool,
 		if len(errs) == 0 {
 			r.Code = 200
 			r.Layer = "accepted"
-			r.Viols = append(r.Viols, childViol{"truncated-file-load-logs-no-error", fmt.Sprintf("start-up load of the first %d of %d bytes of dump %q as dump_file logged no error", len(in), cs.dumpLen, cs.job.DumpName)})
+			r.Viols = append(r.Viols, childViol{Key: "truncated-file-load-logs-no-error", What: fmt.Sprintf("start-up load of the first %d of %d bytes of dump %q as dump_file logged no error", len(in), cs.dumpLen, cs.job.DumpName)})
 		} else {
 			r.Code = 500
 			r.Layer = layerOf(500, strings.TrimPrefix(errs[0], "failed to load cache dump: "))
@@ -354,25 +367,25 @@ func (cs *childState) truncCase(r *childResult, in []byte, full map[string]bool,
 		code, msg := b.load(in)
 		r.Code, r.Layer = code, layerOf(code, msg)
 		if code >= 200 && code < 300 {
-			r.Viols = append(r.Viols, childViol{"truncated-load-reports-success", fmt.Sprintf("POST /load_dump of the first %d bytes of dump %q answered %d %q", len(in), cs.job.DumpName, code, msg)})
+			r.Viols = append(r.Viols, childViol{Key: "truncated-load-reports-success", What: fmt.Sprintf("POST /load_dump of the first %d bytes of dump %q answered %d %q", len(in), cs.job.DumpName, code, msg)})
 		}
 	}
 	defer b.close()
 	code, own := b.dump()
 	if code != 200 {
-		r.Viols = append(r.Viols, childViol{"dump-failed-after-truncated-load", fmt.Sprintf("GET /dump after loading a %d-byte prefix answered %d", len(in), code)})
+		r.Viols = append(r.Viols, childViol{Key: "dump-failed-after-truncated-load", What: fmt.Sprintf("GET /dump after loading a %d-byte prefix answered %d", len(in), code)})
 		return
 	}
 	od, err := decodeDump(own)
 	if err != nil {
-		r.Viols = append(r.Viols, childViol{"dump-undecodable-after-truncated-load", fmt.Sprintf("after loading a %d-byte prefix the cache's own dump does not decode: %v", len(in), err)})
+		r.Viols = append(r.Viols, childViol{Key: "dump-undecodable-after-truncated-load", What: fmt.Sprintf("after loading a %d-byte prefix the cache's own dump does not decode: %v", len(in), err)})
 		return
 	}
 	r.Held = len(od.Entries)
 	for _, e := range od.Entries {
 		if !full[cs.tupleOf(e)] {
 			qk, _ := questionKey(e.Msg)
-			r.Viols = append(r.Viols, childViol{"truncated-load-adds-foreign-entry", fmt.Sprintf("after loading the first %d bytes of dump %q the cache holds an entry the intact dump does not contain: key=%x question=%s cache_exp=%d msg_exp=%d stored=%d msg=%x", len(in), cs.job.DumpName, e.Key, qk, e.CacheExp, e.MsgExp, e.Stored, e.Msg)})
+			r.Viols = append(r.Viols, childViol{Key: "truncated-load-adds-foreign-entry", What: fmt.Sprintf("after loading the first %d bytes of dump %q the cache holds an entry the intact dump does not contain: key=%x question=%s cache_exp=%d msg_exp=%d stored=%d msg=%x", len(in), cs.job.DumpName, e.Key, qk, e.CacheExp, e.MsgExp, e.Stored, e.Msg)})
 			break
 		}
 	}
@@ -423,7 +436,7 @@ func (cs *childState) runDamage() {
 			r.HeapGrow = r.Alloc
 		}
 		if len(c.Input) <= smallInput && r.HeapGrow > heapLimit {
-			r.Viols = append(r.Viols, childViol{"unbounded-allocation-" + c.Kind, fmt.Sprintf("loading a %d-byte input (%s) grew the heap in use by %d MiB (limit %d MiB; %d MiB allocated in total)", len(c.Input), c.Desc, r.HeapGrow>>20, heapLimit>>20, r.Alloc>>20)})
+			r.Viols = append(r.Viols, childViol{Key: "unbounded-allocation-" + c.Kind, What: fmt.Sprintf("loading a %d-byte input (%s) grew the heap in use by %d MiB (limit %d MiB; %d MiB allocated in total)", len(c.Input), c.Desc, r.HeapGrow>>20, heapLimit>>20, r.Alloc>>20)})
 		}
 		cs.emit(r)
 	}
